@@ -43,10 +43,9 @@ def pinch_analysis_service(data: Any, project_name: str = "Project", is_return_f
         tables ready for serialisation.
     """
     # Validate request data using Pydantic model
-    request_data = TargetInput.model_validate(data)
-    if request_data is data:
-        # An already validated model is returned as-is: work on a copy, the preparation rewrites zones and utilities
-        request_data = data.model_copy(deep=True)
+    # Validation hands back existing model instances (a TargetInput, or StreamSchema / UtilitySchema objects inside
+    # a dict) unchanged: work on a private copy, the preparation rewrites zones and utilities in place
+    request_data = TargetInput.model_validate(data).model_copy(deep=True)
 
     # Formulate the top level zone with all subzones and approperiate input data
     master_zone = prepare_problem(
